@@ -6,7 +6,7 @@ import numpy as np
 import sysgen
 from c09 import _signal
 
-LEAN_MODULES = ["PyomaVerif.Props.C08", "PyomaVerif.Props.C08Pipe"]
+LEAN_MODULES = ["PyomaVerif.Props.C08", "PyomaVerif.Props.C08Pipe", "PyomaVerif.Props.C08Unity"]
 THEOREMS = [
     "PV.C08.C08_gain_hank_mm",
     "PV.C08.C08_gain_hank_R",
@@ -57,6 +57,14 @@ THEOREMS = [
     "PV.C08.C08_time_unit_efdd_per",
     "PV.C08.C08_time_unit_efdd_cor",
     "PV.C08.C08_time_unit_efdd_fn",
+    # unity of the three normalisers, reported shape under mixing (Props/C08Unity.lean)
+    "PV.C08.C08_unity_ssi",
+    "PV.C08.C08_unity_shapes",
+    "PV.C08.C08_unity_plscf",
+    "PV.C08.C08_unity_plscf_column",
+    "PV.C08.C08_unity_fdd",
+    "PV.C08.C08_unity_fdd_mpe",
+    "PV.C08.C08_mix_shapes",
 ]
 RULE = (
     "metamorphic oracle on the real code: every algorithm class (FDD, EFDD, FSDD, SSIcov[cov_mm, cov_R], SSIdat, pLSCF[per, cor] and "
